@@ -1500,8 +1500,39 @@ def run_climb_tie(ctx, runs, cases):
             report_problems(ctx, tr, rendered, res, ref_agrees=None, shrink=False)
 
 
+def prewrapped_opt_tables(ctx):
+    """infix_notation wraps a right-associative unary operator in Opt itself unless the caller already passed an Opt: a table
+    written with Opt(op) must parse exactly like the same table written with op (implementation-side metamorphic check)"""
+    import pyparsing as pp
+    from tools.props.c04 import guarded
+
+    def run(e, s):
+        try:
+            return ("ok", e.parse_string(s, parse_all=True).as_list())
+        except pp.ParseBaseException as x:
+            return (type(x).__name__, x.loc)
+        except RecursionError:
+            return ("RecursionError",)
+    num = lambda: pp.Word("0123456789")
+    tables = [("unary +/- over * over +", lambda wrap: [(wrap(pp.one_of("+ -")), 1, pp.OpAssoc.RIGHT), ("*", 2, pp.OpAssoc.LEFT), ("+", 2, pp.OpAssoc.LEFT)]),
+              ("unary ! below **", lambda wrap: [("**", 2, pp.OpAssoc.RIGHT), (wrap(pp.Literal("!")), 1, pp.OpAssoc.RIGHT)]),
+              ("only a unary level", lambda wrap: [(wrap(pp.Literal("-")), 1, pp.OpAssoc.RIGHT)])]
+    for name, mk in tables:
+        bare = pp.infix_notation(num(), mk(lambda o: o))
+        wrapped = pp.infix_notation(num(), mk(lambda o: pp.Opt(o)))
+        for inp in ("7", "- 7", "1 + 2 * 3", "- 1 + - 2", "2 ** ! 3", "- - 4", "1 +"):
+            a = guarded(lambda: run(bare, inp), 3.0)
+            b = guarded(lambda: run(wrapped, inp), 3.0)
+            ctx.case("prewrapped-opt:%s|%r" % (name, inp), True, True)
+            if a != b:
+                ctx.violation("prewrapped-opt:%s|%r" % (name, inp),
+                              "infix_notation table (%s): with the unary operator passed as Opt(op) %r gives %r, with the bare operator %r" % (name, inp, b, a),
+                              {"kind": "prewrapped-opt"})
+
+
 def correspond(ctx):
     corr.ensure_driver()
+    prewrapped_opt_tables(ctx)
     rng = ctx.rng
     n_random = 44 if not ctx.thorough else 400
     specs = make_tables(ctx, rng, n_random)
@@ -1533,6 +1564,13 @@ def search(ctx, reasons):
 
 def replay(ctx, obj):
     r = obj["replay"]
+    if r.get("kind") == "prewrapped-opt":
+        c2 = vlib.Ctx(PROP, "quick", 0)
+        c2.known = {}
+        prewrapped_opt_tables(c2)
+        for v in c2.violations:
+            print(v["what"])
+        return not c2.violations
     if r.get("kind") in ("oracle", "memo"):
         tr = TableRun(r["spec"])
         res = check_input(tr, r["input"])
